@@ -125,6 +125,12 @@ static int last_created_slot;
 
 /* native keys */
 static int nat_of_key[4096], nat_islib[4096], nnative;
+static int nat_owner[4096], nat_idx[4096], kcount[64], kraced[64], kpub[64];   /* PUThreadKey id of a native key, its index among that key's */
+static __thread int cur_k;                                          /* PUThreadKey the calling thread is resolving (0 = the library's) */
+static const char *show_n (int id, char *buf) {
+	if (kraced[nat_owner[id]]) snprintf (buf, 24, "%d.?", nat_owner[id]); else snprintf (buf, 24, "%d.%d", nat_owner[id], nat_idx[id]);
+	return buf;
+}
 
 static void notif_common (int fn, void *v);
 #define NF(i) static void notif##i (void *v) { notif_common (i, v); }
@@ -141,23 +147,27 @@ static int is_notif (void (*d) (void *)) { for (int i = 0; i < 16; i++) if (d ==
 /* ---- wrapped native calls (only the library's own calls come through here) */
 int __wrap_pthread_key_create (pthread_key_t *key, void (*d) (void *)) {
 	int r = __real_pthread_key_create (key, d);
+	char b[24];
 	if (r == 0) {
 		pthread_mutex_lock (&lmx);
 		int id = nnative++;
-		if (*key >= 4096) DIE ("native key value too large");
+		if (*key >= 4096 || id >= 4096) DIE ("native key value too large");
 		nat_of_key[*key] = id; nat_islib[id] = (d != NULL && !is_notif (d));
+		nat_owner[id] = cur_k; nat_idx[id] = kcount[cur_k]++;
 		pthread_mutex_unlock (&lmx);
-		nat ("kc%d", id);
+		nat ("kc%s", show_n (id, b));
 	}
 	return r;
 }
-int __wrap_pthread_key_delete (pthread_key_t key) { nat ("kd%d", nat_of_key[key]); return __real_pthread_key_delete (key); }
+int __wrap_pthread_key_delete (pthread_key_t key) { char b[24]; nat ("kd%s", show_n (nat_of_key[key], b)); return __real_pthread_key_delete (key); }
 int __wrap_pthread_setspecific (pthread_key_t key, const void *v) {
 	int id = nat_of_key[key];
-	if (nat_islib[id]) nat (v ? "ss%d:H" : "ss%d:0", id); else nat ("ss%d:%lu", id, (unsigned long) (uintptr_t) v);
+	char b[24];
+	show_n (id, b);
+	if (nat_islib[id]) nat (v ? "ss%s:H" : "ss%s:0", b); else nat ("ss%s:%lu", b, (unsigned long) (uintptr_t) v);
 	return __real_pthread_setspecific (key, v);
 }
-void *__wrap_pthread_getspecific (pthread_key_t key) { nat ("gs%d", nat_of_key[key]); return __real_pthread_getspecific (key); }
+void *__wrap_pthread_getspecific (pthread_key_t key) { char b[24]; nat ("gs%s", show_n (nat_of_key[key], b)); return __real_pthread_getspecific (key); }
 
 pboolean __wrap_p_atomic_pointer_compare_and_exchange (volatile void *a, ppointer o, ppointer n) {
 	Slot *s = &slots[my_slot];
@@ -245,6 +255,7 @@ static void tls_call (int kind, PUThreadKey *key, unsigned long v, char *res) {
 static void exec_op (Slot *s) {
 	Op *o = &s->op;
 	strcpy (o->res, "-");
+	cur_k = (o->kind == O_SET || o->kind == O_REPLACE || o->kind == O_GET || o->kind == O_RACE) ? o->k : 0;
 	switch (o->kind) {
 	case O_CREATE: {
 		PUThread *p = p_uthread_create (worker, NULL, o->joinable, o->named ? "w" : NULL);
@@ -373,12 +384,14 @@ static void run_case (char **lines, int n) {
 			if (t1 == t2 || t1 <= 0 || t2 <= 0 || t1 >= nextT || t2 >= nextT || slots[t1].state != RUNNING || slots[t2].state != RUNNING
 			    || slots[t1].pending || slots[t2].pending || !key_ok (k)) { bad (); continue; }
 			race_go = 0;
+			if (!kpub[k]) kraced[k] = 1;          /* how many native keys this first use creates is up to the scheduler */
 			slots[t1].op.kind = O_RACE; slots[t1].op.k = k; slots[t1].op.v = strtoul (w[3], NULL, 10);
 			slots[t2].op.kind = O_RACE; slots[t2].op.k = k; slots[t2].op.v = strtoul (w[5], NULL, 10);
 			sem_post (&slots[t1].cmd); sem_post (&slots[t2].cmd);
 			usleep (200);
 			race_go = 1;
 			swait (&slots[t1].done); swait (&slots[t2].done);
+			kpub[k] = 1;
 			answer ("-", "", 0);
 			continue;
 		}
@@ -401,12 +414,12 @@ static void run_case (char **lines, int n) {
 			int k = atoi (w[2]);
 			if (!running || !key_ok (k)) { bad (); continue; }
 			o.kind = !strcmp (op, "set") ? O_SET : O_REPLACE; o.k = k; o.v = strtoul (w[3], NULL, 10);
-			dispatch (a, &o); answer ("-", "", 1);
+			dispatch (a, &o); kpub[k] = 1; answer ("-", "", 1);
 		} else if (!strcmp (op, "get") && nw == 3) {
 			int k = atoi (w[2]);
 			if (!running || !key_ok (k)) { bad (); continue; }
 			o.kind = O_GET; o.k = k;
-			dispatch (a, &o); answer (o.res, "", 1);
+			dispatch (a, &o); kpub[k] = 1; answer (o.res, "", 1);
 		} else if (!strcmp (op, "current") && nw == 2) {
 			if (!running) { bad (); continue; }
 			o.kind = O_CURRENT; dispatch (a, &o); answer (o.res, "", 1);
@@ -447,6 +460,10 @@ static void run_case (char **lines, int n) {
 		} else if (!strcmp (op, "keyfree") && nw == 3) {
 			int k = atoi (w[2]);
 			if (!running || !key_ok (k)) { bad (); continue; }
+			int busy = 0;                           /* a thread parked inside a call on this key */
+			for (int t = 1; t < nextT; t++)
+				if (slots[t].pending && !slots[t].pend_op.named && slots[t].pend_op.kind != O_CURRENT && slots[t].pend_op.k == k) busy = 1;
+			if (busy) { bad (); continue; }
 			o.kind = O_KEYFREE; o.k = k; dispatch (a, &o); answer ("-", "", 1);
 		} else if (!strcmp (op, "kbegin") && nw == 5) {
 			const char *what = w[2];
@@ -467,6 +484,7 @@ static void run_case (char **lines, int n) {
 			s->pending = 0; s->at_cas = 0; s->cas_result = 0;
 			sem_post (&s->cas_gate); swait (&s->done);
 			if (s->pend_op.named) s->state = RUNNING;
+			if (!s->pend_op.named && s->pend_op.kind != O_CURRENT) kpub[s->pend_op.k] = 1;
 			answer (s->pend_op.named ? "-" : s->op.res, s->cas_result == 1 ? "won" : "lost", 1);
 		} else bad ();
 	}
